@@ -97,10 +97,43 @@ def diff_class(a, b):
     return 'value'
 
 
+FILL_FIRST = [('char', 'abc', False), ('char', 'a b', True), ('char', "a'b c", True), ('char', 'a\'b"c', True), ('numb', '1.50(3)', False),
+              ('char', 'x\ny', True), ('unk',), ('char', "it's \"so\"", True)]
+FILL_LENGTHS = list(range(1985, 2049))
+FILL_KINDS = ['list', 'loop', 'table', 'list-tail']
+NFILL = len(FILL_FIRST) * len(FILL_LENGTHS) * len(FILL_KINDS)
+
+
+def fill_probe_doc(j):
+    """systematic line-fill probes: a short value of every presentation followed, in the same list / packet / table, by
+    a filler of every length that brings the output line to the limit - the writer's column bookkeeping after each
+    kind of token decides whether the filler still goes on that line"""
+    kind = FILL_KINDS[j % len(FILL_KINDS)]
+    j //= len(FILL_KINDS)
+    first = FILL_FIRST[j % len(FILL_FIRST)]
+    j //= len(FILL_FIRST)
+    n = FILL_LENGTHS[j % len(FILL_LENGTHS)]
+    filler = ('char', 'f' * n, False) if n % 2 else ('char', 'f' * (n - 2) + ' g', True)
+    if kind == 'list':
+        entries = [('item', '_n', ('list', (first, filler)))]
+    elif kind == 'list-tail':
+        entries = [('item', '_n', ('list', (('char', 'h', False), first, first, filler, first)))]
+    elif kind == 'loop':
+        entries = [('loop', ['_a', '_b', '_c'], [[first, filler, first], [filler, first, first]])]
+    else:
+        entries = [('item', '_t', ('table', (('k', first), ('m', filler))))]
+    return [{'code': 'fill', 'entries': entries}]
+
+
 def _run_case_body(ctx, L, i, version=2, scope=None):
     rng = ctx.rng('C02' if version == 2 else 'C13', i)
     big = ctx.tier != 'quick' and i % 50 == 0
-    doc = B.writer_doc(rng, ascii_only=(version == 1), big=big)
+    nfill = ctx.params.get('fill_probes', 0)
+    if i < nfill:
+        doc = fill_probe_doc(i)
+        ctx.count('fill_probes')
+    else:
+        doc = B.writer_doc(rng, ascii_only=(version == 1), big=big)
     info = dict(index=i, version=version)
     cif = None
     try:
@@ -157,8 +190,8 @@ def worker(ctx):
 
 
 def run(env):
-    n = 8000 if env.quick else 120000
-    res = env.run_pool(MODULE, dict(cifs=n), nshards=16, case_timeout=300, total_timeout=3000 if env.quick else 30000)
+    n = (8000 if env.quick else 120000) + NFILL
+    res = env.run_pool(MODULE, dict(cifs=n, fill_probes=NFILL), nshards=16, case_timeout=300, total_timeout=3000 if env.quick else 30000)
     inconclusive = list(res.inconclusive)
     if res.count('cifs') < n and not res.violations:
         inconclusive.append('only %d of %d CIFs ran' % (res.count('cifs'), n))
@@ -169,7 +202,7 @@ def run(env):
             rule='one evaluation = one CIF built through the API from seeded abstract content (distinct by per-index '
                  'PRNG), written in CIF 2.0 mode; non-trivial = cif_write succeeded and its output passed the header, '
                  'UTF-8 and line-length checks and re-parsed without error to an equivalent CIF',
-            samples=res.samples, refused_for_unwritable_table_key=res.count('refused_unwritable_key'),
+            samples=res.samples, systematic_line_fill_probes=res.count('fill_probes'), refused_for_unwritable_table_key=res.count('refused_unwritable_key'),
             bytes_written=res.count('bytes_written'),
             outputs_with={k[len('output_with_'):]: v for k, v in res.counters.items() if k.startswith('output_with_')},
             write_result_codes=sorted(res.sets.get('write_rc', ())), crashes=res.crashes),
